@@ -31,7 +31,10 @@ def parse_rejects(out):
     return rej
 
 
-def judge(records, spec_dir, module, cfg, name, res, nshards=16, heap="1g", timeout=3600, keep=False, per_shard=200):
+PATHS = re.compile(r'<<\s*"PATHS",\s*(\{[^}]*\})\s*>>')
+
+
+def judge(records, spec_dir, module, cfg, name, res, nshards=16, heap="1g", timeout=3600, keep=False, per_shard=200, collect=None):
     """Validate records (each with unique 'id') by the batch trace spec. Returns {id: set(clauses)} of rejects.
     Any mismatch between records sent and records judged is a machinery error."""
     if not records:
@@ -48,6 +51,9 @@ def judge(records, spec_dir, module, cfg, name, res, nshards=16, heap="1g", time
         except ValueError as e:
             res.machinery(f"trace spec {module}: {e} for {p}")
             rj = {}
+        if collect is not None:
+            for pm in PATHS.finditer(r.out):
+                collect.update(re.findall(r'"([^"]+)"', pm.group(1)))
         m = JUD.search(r.out)
         if m:
             judged += int(m.group(1))
